@@ -1,6 +1,8 @@
 package ops
 
 import (
+	"runtime"
+
 	"gorgonia.org/tensor"
 )
 
@@ -54,10 +56,14 @@ func Div(A, B tensor.Tensor) (tensor.Tensor, error) {
 
 	switch divisor := IfScalarToSlice(B.Data()).(type) {
 	case []float32:
-		return fixDivisionByZero(out, IfScalarToSlice(A.Data()), divisor), nil
+		out = fixDivisionByZero(out, IfScalarToSlice(A.Data()), divisor)
 	case []float64:
-		return fixDivisionByZero(out, IfScalarToSlice(A.Data()), divisor), nil
+		out = fixDivisionByZero(out, IfScalarToSlice(A.Data()), divisor)
 	}
+
+	// The tensor library builds those slices from the addresses of the operands' data.
+	runtime.KeepAlive(A)
+	runtime.KeepAlive(B)
 
 	return out, nil
 }
